@@ -279,3 +279,126 @@ func c07SeqJob(tier string) *SeqJob {
 	}
 	return j
 }
+
+// c07TaggedRootJob: cycles on a root that has tags of its own, with a subscope derived by NAME (it carries exactly
+// its parent's tag set - an implementation may share the map) next to one derived by tags: obtain / record / Close /
+// pass / re-obtain histories, recording on the root and on the sibling in between. Closing and dropping one scope
+// changes nothing about the name and tags any other scope - the root included - is delivered under.
+func c07TaggedRootJob(tier string) *SeqJob {
+	alphabet := []string{"get D", "inc D", "close D", "get T", "inc T", "close T", "inc root", "get DD", "inc DD", "pass"}
+	depth := tierInt(tier, 5, 6)
+	exec := func(cached bool) func(hist []int) (string, string, string, int) {
+		return func(hist []int) (cl, det, key string, steps int) {
+			cl, det = guard(func() (string, string) {
+				rec := &Recorder{NoPoints: true}
+				o := scopeOpts(rec, cached, false)
+				o.Tags = map[string]string{"r": "0"}
+				o.Prefix = "p"
+				root, _ := tally.VerifNewRootScope(o, 0, 1)
+				type obj struct {
+					s      tally.Scope
+					closed bool
+				}
+				cur := map[string]*obj{}
+				ids := map[string]string{"D": `p.d.c{"r":"0"}`, "T": `p.c{"k":"v","r":"0"}`, "DD": `p.d.e.c{"r":"0"}`, "root": `p.c{"r":"0"}`}
+				want := map[string]int64{}
+				optional := map[string]int64{}
+				v := int64(1)
+				for _, op := range hist {
+					var what, lbl string
+					fmt.Sscanf(alphabet[op], "%s %s", &what, &lbl)
+					steps++
+					switch what {
+					case "pass":
+						tally.VerifReportOnce(root)
+					case "get":
+						var s tally.Scope
+						switch lbl {
+						case "D":
+							s = root.SubScope("d")
+						case "T":
+							s = root.Tagged(map[string]string{"k": "v"})
+						case "DD":
+							// derived from the current D object, whatever its state
+							if cur["D"] == nil {
+								continue
+							}
+							s = cur["D"].s.SubScope("e")
+							if cur["D"].closed {
+								if !tally.VerifIsNoop(s) {
+									return "inertness-of-derived-scope", fmt.Sprintf("%v", histLabels(alphabet, hist))
+								}
+								continue
+							}
+						}
+						if tally.VerifIsNoop(s) {
+							return "obtained-scope-inert", fmt.Sprintf("%v", histLabels(alphabet, hist))
+						}
+						if ob := cur[lbl]; ob == nil || ob.s != s {
+							cur[lbl] = &obj{s: s}
+						}
+					case "inc":
+						if lbl == "root" {
+							root.Counter("c").Inc(v)
+							want[ids["root"]] += v
+						} else if ob := cur[lbl]; ob != nil {
+							ob.s.Counter("c").Inc(v)
+							if ob.closed {
+								optional[ids[lbl]] += v
+							} else {
+								want[ids[lbl]] += v
+							}
+						}
+						v *= 2
+					case "close":
+						if ob := cur[lbl]; ob != nil {
+							closeScope(ob.s)
+							ob.closed = true
+						}
+					}
+				}
+				var ks []string
+				for l, ob := range cur {
+					ks = append(ks, fmt.Sprintf("%s:%v", l, ob.closed))
+				}
+				sort.Strings(ks)
+				key = fmt.Sprint(cached, hist) // (what a dropped scope takes with it depends on the order of events: no merging)
+				_ = ks
+				tally.VerifReportOnce(root)
+				tally.VerifReportOnce(root)
+				got := sumCounters(rec.Log, 0, len(rec.Log))
+				for id, g := range got {
+					w, o := want[id], optional[id]
+					if g < w || (g-w)&^o != 0 {
+						return "delivered-under-wrong-name-or-tags-or-not-exactly-once", fmt.Sprintf("%v: %s: %d delivered, %d recorded on live scopes (plus %d after a Close); all deliveries %v", histLabels(alphabet, hist), id, g, w, o, got)
+					}
+				}
+				for id, w := range want {
+					if got[id] < w {
+						return "delivered-under-wrong-name-or-tags-or-not-exactly-once", fmt.Sprintf("%v: %s: %d delivered, %d recorded on live scopes; all deliveries %v", histLabels(alphabet, hist), id, got[id], w, got)
+					}
+				}
+				return "", ""
+			})
+			return
+		}
+	}
+	j := &SeqJob{Property: "C07", Name: "cycles-under-a-tagged-root-subscope-by-name", Shards: 2}
+	j.Run = func(ctx *SeqCtx) {
+		for _, cached := range []bool{true, false} {
+			ctx.OpsPrefix = []string{fmt.Sprint(cached)}
+			ctx.ResetSeen()
+			bfs(ctx, alphabet, depth, exec(cached))
+			if ctx.viol != nil || ctx.st.TimedOut {
+				return
+			}
+		}
+	}
+	j.Replay = func(ops []string) (string, string) {
+		var cached bool
+		fmt.Sscan(ops[0], &cached)
+		cl, det, _, _ := exec(cached)(opIndex(alphabet, ops[1:]))
+		return cl, det
+	}
+	return j
+}
